@@ -72,7 +72,12 @@ func renameBack(c *Ctx) (map[string]bool, []string) {
 	for k := range ch5 {
 		changed[k] = true
 	}
-	return changed, append(notes, n5...)
+	notes = append(notes, n5...)
+	ch6, n6 := flagLoopsToBreaks(c)
+	for k := range ch6 {
+		changed[k] = true
+	}
+	return changed, append(notes, n6...)
 }
 
 func renamePhase(c *Ctx, typesOnly bool) (map[string]bool, []string) {
